@@ -760,7 +760,7 @@ pub fn witnesses(check: &str, only: Option<usize>) {
         ("overflow_payloads", "payloads larger than a page (overflow chains): inserts fail or panic in storage/core/buffer.rs", TreeCfg { payloads: &[5000], order: "asc", keys: vec![BigUInt, Int], nops: 200, ..base.clone() }, 13),
         ("small_cache", "cache of 24 pages: inserts fail with 'Buffer pool got out of memory' although no operation needs more than a few pages (eviction cursor never wraps)", TreeCfg { cache: 24, payloads: &[120], nops: 1500, ..base.clone() }, 14),
         ("deep_tree_descending", "trees of three and more levels filled in descending key order (2500 uniform 120-byte cells): keys inserted earlier are no longer found / update and remove report 'key does not exist' (interior-page rebalancing)", TreeCfg { keys: vec![BigInt], order: "desc", min_keys: 6, siblings: 1, payloads: &[120], nops: 2500, updates: true, ..base.clone() }, 16),
-        ("large_tree_ascending", "trees of more than ~2000 uniform 120-byte cells lose keys in every key order, ascending included (lookups miss keys, scans out of order, 'key does not exist' on update / remove, duplicate inserts accepted): found by the thorough tier with 12000-operation sequences; 3500 operations are still clean, 5000 are not", TreeCfg { keys: vec![BigUInt], order: "asc", min_keys: 4, siblings: 3, cache: 4000, payloads: &[120], nops: 12000, ..base.clone() }, 17),
+        ("large_tree_ascending", "trees of more than ~2000 uniform 120-byte cells lose keys in every key order, ascending included (lookups miss keys, scans out of order, 'key does not exist' on update / remove, duplicate inserts accepted): found by the thorough tier with 12000-operation sequences; 3500 operations with single numeric keys are still clean, 5000 are not; with Text or composite keys 2500 operations (about 1800 entries) already fail in 4 of 960 sequences", TreeCfg { keys: vec![BigUInt], order: "asc", min_keys: 4, siblings: 3, cache: 4000, payloads: &[120], nops: 12000, ..base.clone() }, 17),
         ("cache_smaller_than_tree", "cache of 200 pages and a tree that outgrows it (zigzag key order): a key inserted earlier is no longer found (dirty page eviction / reload under random access)", TreeCfg { cache: 200, min_keys: 4, siblings: 1, order: "zigzag", payloads: &[120], nops: 2500, ..base.clone() }, 15),
     ];
     for (wi, (name, what, tc, seed)) in list.into_iter().enumerate() {
@@ -1012,6 +1012,11 @@ pub fn run(check: &str, seed: u64, tier: &str, shard: u64, mode: Option<&str>) {
             // 3500 operations is the largest size that is clean on the unchanged tree (witness large_tree_ascending)
             tc.nops = std::env::var("AXV_LONG_NOPS").ok().and_then(|v| v.parse().ok()).unwrap_or(if tier == "thorough" { 3500 } else { 2500 });
             tc.payloads = &[120];
+            // long sequences use single numeric keys: with Text / composite keys trees of ~1800 entries and more already
+            // lose keys now and then on the unchanged tree (4 of 960 sequences; open finding large_tree_ascending)
+            if !matches!(tc.keys.as_slice(), [VKeyKind::BigUInt] | [VKeyKind::BigInt] | [VKeyKind::Int] | [VKeyKind::Double]) {
+                tc.keys = vec![*r.pick(&[VKeyKind::BigUInt, VKeyKind::BigInt, VKeyKind::Int, VKeyKind::Double])];
+            }
             // trees of three and more levels: only ascending / random key order is sampled (open finding:
             // descending and zigzag orders lose keys once interior pages rebalance; witness deep_tree_descending)
             tc.order = if let Ok(o) = std::env::var("AXV_LONG_ORDER") { Box::leak(o.into_boxed_str()) } else if r.chance(1, 2) { "asc" } else { "random" };
